@@ -1109,6 +1109,120 @@ fn ctors_mode(workdir: &str) {
     println!("{}", json!({"ev": "end"}));
 }
 
+/// Several waiters on ONE socket: K threads in accept_with_timeout(limit) on one listener and one client per
+/// round; two threads in read_with_timeout(limit) on one TCP stream and one byte per round.  One waiter wins;
+/// what the others report is logged: a Timeout must not come before the limit (Ok / an OS error are admitted).
+fn racers_mode(workdir: &str, rounds: usize, limit_ms: u64) {
+    let limit = Duration::from_millis(limit_ms);
+    let out = Arc::new(std::sync::Mutex::new(Vec::<Value>::new()));
+    let mut fams = Vec::new();
+    for fam in ["unix", "tcp"] {
+        let out = out.clone();
+        let workdir = workdir.to_string();
+        fams.push(std::thread::spawn(move || {
+            for round in 0..rounds {
+                let delay = Duration::from_millis(60 + (round as u64 * 37) % 240);
+                // ---- K acceptors on one listener
+                let path = format!("{workdir}/race{round}.sock");
+                let _ = std::fs::remove_file(&path);
+                let (lfd, port) = if fam == "unix" {
+                    let l = UnixListener::bind(&UnixString::try_from_str(&path).unwrap()).unwrap();
+                    let fd = x_fd_u(&l);
+                    std::mem::forget(l);
+                    (fd, 0u16)
+                } else {
+                    let l = TcpListener::bind(&SocketAddress::new(Ip::V4([127, 0, 0, 1]), 0)).unwrap();
+                    let a = format!("{:?}", l.local_addr().unwrap());
+                    let p: u16 = a.rsplit("port: ").next().unwrap().trim_end_matches(|c: char| !c.is_ascii_digit()).parse().unwrap();
+                    let fd = l.as_raw_fd_compat();
+                    std::mem::forget(l);
+                    (fd, p)
+                };
+                let mut hs = Vec::new();
+                for w in 0..3 {
+                    let out = out.clone();
+                    hs.push(std::thread::spawn(move || {
+                        // a handle of the tiny_std listener type on the shared descriptor (newtype around the fd)
+                        assert_eq!(4, std::mem::size_of::<UnixListener>());
+                        assert_eq!(4, std::mem::size_of::<TcpListener>());
+                        let t0 = Instant::now();
+                        let r: Result<tiny_std::Result<i32>, String> = if fam == "unix" {
+                            let mut l: UnixListener = unsafe { std::mem::transmute(lfd) };
+                            let r = guarded(|| l.accept_with_timeout(limit).map(|s| s.as_raw_fd().value()));
+                            std::mem::forget(l);
+                            r
+                        } else {
+                            let mut l: TcpListener = unsafe { std::mem::transmute(lfd) };
+                            let r = guarded(|| l.accept_with_timeout(limit).map(|s| { let fd = s.as_raw_fd().value(); std::mem::forget(s); fd }));
+                            std::mem::forget(l);
+                            r
+                        };
+                        let el = t0.elapsed().as_micros() as i64;
+                        let (class, errno) = res_of(&r);
+                        if let Ok(Ok(fd)) = r {
+                            if fam == "tcp" {
+                                unsafe { libc::close(fd) };
+                            }
+                        }
+                        out.lock().unwrap().push(json!({"ev": "race", "fam": fam, "op": "accept_to", "round": round, "waiter": w, "res": class, "errno": errno,
+                                                        "d": (limit_ms * 1000) as i64 - 1, "elapsed": el}));
+                    }));
+                }
+                std::thread::sleep(delay);
+                // the one client (std: not code under test)
+                let _c: Box<dyn std::any::Any> = if fam == "unix" {
+                    Box::new(std::os::unix::net::UnixStream::connect(&path))
+                } else {
+                    Box::new(std::net::TcpStream::connect(("127.0.0.1", port)))
+                };
+                for h in hs {
+                    let _ = h.join();
+                }
+                unsafe { libc::close(lfd) };
+                let _ = std::fs::remove_file(&path);
+                // ---- two readers on one TCP stream
+                if fam == "tcp" {
+                    let l = std::net::TcpListener::bind("127.0.0.1:0").unwrap();
+                    let port = l.local_addr().unwrap().port();
+                    let s = TcpStream::connect(&SocketAddress::new(Ip::V4([127, 0, 0, 1]), port)).unwrap();
+                    let (mut peer, _) = l.accept().unwrap();
+                    let sfd = s.as_raw_fd().value();
+                    std::mem::forget(s);
+                    let mut hs = Vec::new();
+                    for w in 0..2 {
+                        let out = out.clone();
+                        hs.push(std::thread::spawn(move || {
+                            assert_eq!(4, std::mem::size_of::<TcpStream>());
+                            let mut s: TcpStream = unsafe { std::mem::transmute(sfd) };
+                            let mut b = [0u8; 8];
+                            let t0 = Instant::now();
+                            let r = guarded(|| s.read_with_timeout(&mut b, limit));
+                            let el = t0.elapsed().as_micros() as i64;
+                            std::mem::forget(s);
+                            let (class, errno) = res_of(&r);
+                            out.lock().unwrap().push(json!({"ev": "race", "fam": fam, "op": "read_to", "round": round, "waiter": w, "res": class, "errno": errno,
+                                                            "d": (limit_ms * 1000) as i64 - 1, "elapsed": el}));
+                        }));
+                    }
+                    std::thread::sleep(delay);
+                    let _ = std::io::Write::write_all(&mut peer, b"x");
+                    for h in hs {
+                        let _ = h.join();
+                    }
+                    unsafe { libc::close(sfd) };
+                }
+            }
+        }));
+    }
+    for f in fams {
+        let _ = f.join();
+    }
+    for v in out.lock().unwrap().iter() {
+        println!("{v}");
+    }
+    println!("{}", json!({"ev": "end"}));
+}
+
 fn main() {
     std::panic::set_hook(Box::new(|info| {
         if !IN_OP.load(Ordering::Relaxed) {
@@ -1123,6 +1237,7 @@ fn main() {
         "cmsgiter" => cmsgiter_mode(&a[2], skip(3)),
         "tryops" => tryops_mode(&a[2]),
         "ctors" => ctors_mode(&a[2]),
+        "racers" => racers_mode(&a[2], a[3].parse().unwrap(), a[4].parse().unwrap()),
         _ => panic!("usage"),
     }
 }
